@@ -671,6 +671,10 @@ def run(ctx):
         # the syntactic form of the loop is not recognised: the semantic train-loop check below decides
         cf_notes.append(str(e))
         ev.extra["cf_notes"] = cf_notes
+    # DONATE: the model stop() keeps by reference must not reach a buffer-donating compiled step (use-after-donate of the best model)
+    from .. import donate
+
+    donate.apply(ctx, "C19")
     # semantic train-loop check (decides): ml.train with stubbed collaborators, fed loss histories
     H = [(5, 9), (4, 8), (4, 9), (3, 7), (3, 7), (3, 8), (2, 8), (2, 9), (2, 9), (2, 9), (2, 9), (2, 9)]
     lj = [(ctx.repo, "EpochStop", n, H) for n in (0, 1, 2, 3)]
